@@ -127,6 +127,9 @@ class Selection(Contract):
         yield {"kinds": ("expr", "expr", "free", "free", "fixed")}
         # non-negative parameters that also carry finite bounds (minimum below or above 1): both bounds go to the optimiser as logarithms
         yield {"kinds": ("nonneg_bounded", "free", "nonneg_bounded")}
+        # `vary` switched on after construction for a parameter that is defined by an expression: still never handed to the optimiser
+        yield {"kinds": ("free", "expr_vary_later", "free")}
+        yield {"kinds": ("expr_vary_later", "fixed", "free", "expr")}
         yield {"kinds": ("fixed", "nonneg_bounded", "expr", "nonneg")}
 
     def build(self, S, case):
@@ -134,7 +137,7 @@ class Selection(Contract):
 
         pars, vals = {}, {}
         kinds = case["kinds"]
-        free_label = next((f"g.{i+1}" for i, k in enumerate(kinds) if k != "expr"), None)
+        free_label = next((f"g.{i+1}" for i, k in enumerate(kinds) if k not in ("expr", "expr_vary_later")), None)
         for i, k in enumerate(kinds):
             label = f"g.{i+1}"
             v = S.real(f"v_{i}")
@@ -142,7 +145,7 @@ class Selection(Contract):
             kw = {}
             if k == "fixed":
                 kw["vary"] = False
-            elif k == "expr":
+            elif k in ("expr", "expr_vary_later"):
                 if free_label is None:
                     kw["expression"] = "2.0"
                 else:
@@ -166,6 +169,8 @@ class Selection(Contract):
                 S.require(L.le(v, hi), "value within bounds")
                 kw["minimum"], kw["maximum"] = lo, hi
             pars[label] = Parameter(label=label, value=v, **kw)
+            if k == "expr_vary_later":
+                pars[label].vary = True
         new = {label: S.real(f"n_{i}") for i, label in enumerate(pars)}
         return {"pars": pars, "vals": vals, "new": new, "P": Parameters(pars), "free_label": free_label}
 
@@ -234,7 +239,7 @@ class Selection(Contract):
                     wr.append(L.eq(val, L.fn("exp", new[lab])))
             elif k == "fixed":
                 wr.append(L.eq(val, vals[lab]))
-            elif k == "expr":
+            elif k in ("expr", "expr_vary_later"):
                 fl = inp["free_label"]
                 if fl is None:
                     wr.append(L.eq(val, 2.0))
